@@ -54,13 +54,16 @@ def check(tier='quick', tol=2e-4):
         nodes = list(T.nodes())
         for j, (u, v) in enumerate(T.edges()):
             T[u][v]['tw'] = 0.5 + 0.75 * ((j * 2 + 1) % 3)
+            T[u][v]['weight'] = T[u][v]['tw']      # the same weights also under networkx's default attribute name 'weight'
         for j, u in enumerate(nodes):
             T.nodes[u]['rw'] = 0.6 + 0.5 * (j % 3)
         seeds = [([u], []) for u in nodes] + [([nodes[0], nodes[-1]], []), ([nodes[1]], [nodes[0]])]
-        for weighted in ('none', 'edges', 'nodes', 'both'):
+        for weighted in ('none', 'edges', 'nodes', 'both', 'edges (attribute named weight)'):
             kw = {}
             if weighted in ('edges', 'both'):
                 kw['transmission_weight'] = 'tw'
+            if weighted == 'edges (attribute named weight)':
+                kw['transmission_weight'] = 'weight'
             if weighted in ('nodes', 'both'):
                 kw['recovery_weight'] = 'rw'
             ruv = (lambda a, b: tau * T[a][b]['tw']) if 'transmission_weight' in kw else (lambda a, b: tau)
@@ -70,6 +73,11 @@ def check(tier='quick', tol=2e-4):
                 tmin, tmax, tcount = 0.5, 3.5, 4
                 wit = dict(tree=tname, edges=[(str(a), str(b), T[a][b]['tw']) for a, b in T.edges()], node_weights={str(u): T.nodes[u]['rw'] for u in nodes},
                            weights_used=weighted, initial_infecteds=[str(x) for x in inf], initial_recovereds=[str(x) for x in rec], tau=tau, gamma=gamma, tmin=tmin, tmax=tmax, tcount=tcount)
+                # the order in which the caller lists the nodes (nodelist) is irrelevant: default, reversed, rotated
+                order = [None, nodes[::-1], nodes[2:] + nodes[:2]][n % 3]
+                if order is not None:
+                    kw = dict(kw, nodelist=order)
+                    wit['nodelist'] = [str(x) for x in order]
                 try:
                     t, S, I, R = EoN.SIR_pair_based_pure_IC(T, tau, gamma, inf, initial_recovereds=rec or None, tmin=tmin, tmax=tmax, tcount=tcount, **kw)
                 except Exception as e:
